@@ -10,6 +10,7 @@ import (
 	"fmt"
 	"net/http"
 	"net/http/httptest"
+	"net/url"
 	"reflect"
 	"strings"
 
@@ -172,10 +173,62 @@ func c09InputKeysScenario(x *mc.X) *mc.Outcome {
 	return out
 }
 
+// Flat sources: any subset of parameter spellings a client might use for one list field (plain, [] suffix, one
+// parameter per index) and for a scalar field in two letter cases. Whatever the front end makes of them, it must not
+// depend on the order in which the parameter map is iterated.
+type c09Flat struct {
+	Name string   `query:"name" form:"name"`
+	Tags []string `query:"tags" form:"tags"`
+}
+
+func c09FlatKeysScenario(x *mc.X) *mc.Outcome {
+	fe := x.Choose(2, "frontEnd") // 0 query, 1 form body
+	vals := url.Values{}
+	var desc []string
+	for i, k := range []string{"tags", "tags[]", "tags[0]", "tags[1]", "tags[2]", "tags[10]"} {
+		if x.Choose(2, "key."+k) == 1 {
+			vals.Add(k, []string{"plain", "brk", "i0", "x", "i2", "i10"}[i])
+			desc = append(desc, k)
+		}
+	}
+	for i, k := range []string{"name", "Name", "NAME"} {
+		if x.Choose(2, "key."+k) == 1 {
+			vals.Add(k, []string{"alice", "b", "carol"}[i])
+			desc = append(desc, k)
+		}
+	}
+	enc := vals.Encode()
+	run := func(om zh.OrderMode) (*Obs, string) {
+		zh.Reset()
+		zh.Install(x, zh.PoolLIFO, om)
+		s := z.Struct(z.Schema{"name": z.String().Min(3), "tags": z.Slice(z.String().Min(2))})
+		var d c09Flat
+		var r *http.Request
+		if fe == 0 {
+			r = httptest.NewRequest(http.MethodGet, "/?"+enc, nil)
+		} else {
+			r = httptest.NewRequest(http.MethodPost, "/", strings.NewReader(enc))
+			r.Header.Set("Content-Type", "application/x-www-form-urlencoded")
+		}
+		o := RunParse(s, zhttp.Request(r), reflect.ValueOf(&d))
+		zh.Reset()
+		return o, fmt.Sprintf("%+v", d)
+	}
+	bo, bd := run(zh.OrderSorted)
+	po, pd := run(zh.OrderFree)
+	out := &mc.Outcome{Traces: 2, Nontrivial: len(vals) > 0, Sig: fmt.Sprintf("flatkeys|%d|%v|%v", fe, desc, bo.IssueStrings())}
+	out.Sample = map[string]any{"front_end": fe, "parameters": enc, "issues": bo.IssueStrings(), "dest": bd}
+	if bo.Panic != po.Panic || !eqStrings(bo.IssueStrings(), po.IssueStrings()) || bd != pd {
+		x.Note("front end %d (0 query, 1 form body), parameters %s", fe, enc)
+		out.Viol = append(out.Viol, &mc.Violation{Key: "C09:input-key-order:flat", What: "the result depends on the order in which a map (the request's parameters or the schema's fields) is iterated", Expected: fmt.Sprintf("sorted order: %v %s", bo.IssueStrings(), bd), Observed: fmt.Sprintf("another order: %v %s", po.IssueStrings(), pd)})
+	}
+	return out
+}
+
 func init() {
 	Register(&Prop{
 		ID:    "C09",
-		Rule:  "one execution = one core case (skeletons with a ≥2-field struct, ≤k focus units over full alphabets, both modes) run twice on the real code: canonical sorted visit order vs. the permutation chosen at every struct visit (all permutations enumerated, jointly across nesting levels and slice elements); plus the two-field shape grammar again under an installed formatter whose text names the issue's own path and code (messages are then part of the comparison); plus input documents holding any subset of keys that differ only in letter case / blanks (top level and nested) through Go map, zjson and zhttp JSON, sorted order vs every permutation at every hooked range-over-map site; non-trivial = non-identity permutation on a deviating case; distinct = distinct (skeleton, mode, issue multiset, permutation vector)",
+		Rule:  "one execution = one core case (skeletons with a ≥2-field struct, ≤k focus units over full alphabets, both modes) run twice on the real code: canonical sorted visit order vs. the permutation chosen at every struct visit (all permutations enumerated, jointly across nesting levels and slice elements); plus the two-field shape grammar again under an installed formatter whose text names the issue's own path and code (messages are then part of the comparison); plus input documents holding any subset of keys that differ only in letter case / blanks (top level and nested) through Go map, zjson and zhttp JSON, and query / form requests holding any subset of the spellings of one list parameter (plain, [] suffix, one parameter per index) and of one scalar parameter in three letter cases, sorted order vs every permutation at every hooked range-over-map site; non-trivial = non-identity permutation on a deviating case; distinct = distinct (skeleton, mode, issue multiset, permutation vector)",
 		Floor: 50,
 		Bound: func(tier string) string {
 			k, e := coreK(tier)
@@ -191,6 +244,7 @@ func init() {
 				items = append(items, it)
 			}
 			items = append(items, Item{Name: "input-keys", MaxDevs: -1, Run: c09InputKeysScenario})
+			items = append(items, Item{Name: "input-keys-flat", MaxDevs: -1, Run: c09FlatKeysScenario})
 			// every message is the formatter's answer for its own issue, whatever was formatted just before it:
 			// the shape grammar and the small catalogue skeletons again, under a formatter that names path and code
 			for _, it := range coreItemsFiltered(tier, c09Scenario, func(a *Alpha) { a.Lite = true }, []int{0, 1}, 2, func(ns NamedSkel) bool {
